@@ -125,6 +125,13 @@ Definition tx_sign_element (P : ec_prims) (t : tx) (sk : privkey) (f : N) (n_tx_
   do s <- sign_with_deterministic_k P sk buffer SHSha256d true;
   Ok (to_der_bytes s ++ [n2b f]).
 
+(* Transaction::sign_with_k(priv_key, ephemeral_key, ..).to_bytes(): the same with ECDSA::sign_with_k_impl(.., Sha256d) *)
+Definition tx_sign_with_k_element (P : ec_prims) (t : tx) (sk ephemeral : privkey) (f : N) (n_tx_in : nat)
+           (unsigned_script : list bit) (value : N) : outcome bytes :=
+  do buffer <- sighash_preimage sha_256d t n_tx_in f unsigned_script value;
+  do s <- sign_with_k P sk ephemeral buffer SHSha256d;
+  Ok (to_der_bytes s ++ [n2b f]).
+
 (* PublicKey::from_private_key(sk).to_bytes() *)
 Definition pubkey_bytes (P : ec_prims) (sk : privkey) : bytes := pk_point (to_public_key P sk).
 
